@@ -320,7 +320,7 @@ async def _main(case, obs, loop, net):
     obs.windows["members_after_stop"] = sorted(g.members) if g else []
 
 
-def run(case):
+def _run(case):
     if not _SHIMMED[0]:
         setup()
     obs = Obs()
@@ -351,3 +351,10 @@ def run(case):
     for m in obs.members.values():
         m["consumer"] = None
     return obs
+
+
+def run(case):
+    """Execute the case (case["debug_log"]: with the library's DEBUG logging switched on); returns Obs."""
+    from vlib.core import debug_logging
+    with debug_logging(case.get("debug_log")):
+        return _run(case)
